@@ -184,6 +184,19 @@ func (s *script) exec(vm *ugo.VM, timeout time.Duration) run.Outcome {
 	if s.Abort {
 		return execAbort(vm, e, timeout)
 	}
+	if s.NilGlobals {
+		o := run.ExecVM(vm, nil, e.lg, e.args, run.Opts{Timeout: timeout, WantLoc: true})
+		o.ErrMsg = cutGoStack(o.ErrMsg)
+		if !o.TimedOut {
+			o.Log = nil
+			if g, ok := vm.GetGlobals().(ugo.Map); ok {
+				o.Globals = canon.Value(g)
+			} else {
+				o.Globals = fmt.Sprintf("%T", vm.GetGlobals())
+			}
+		}
+		return o
+	}
 	o := run.ExecVM(vm, e.globals, e.lg, e.args, run.Opts{Timeout: timeout, WantLoc: true})
 	o.ErrMsg = cutGoStack(o.ErrMsg)
 	if !o.TimedOut {
